@@ -208,6 +208,7 @@ Proof.
     rewrite Hv, Hh, Hf. cbn [is_ok andb].
     destruct (cfg_hyp_token cfg token) as [origin|]; [|discriminate].
     destruct (String.eqb origin (t_ddenom t)); [|discriminate]. cbn [negb] in H.
+    cbv beta iota zeta delta [no_gas] in H.
     eexists _, _. split; [reflexivity|].
     change [CHypToken token; CHypTransfer (cfg_orbiter_bech cfg) token domain rcp (t_damt t) (opt_str hook) gas fd fa md]
       with ([CHypToken token] ++ [CHypTransfer (cfg_orbiter_bech cfg) token domain rcp (t_damt t) (opt_str hook) gas fd fa md]).
